@@ -17,6 +17,7 @@ from krrood.entity_query_language.entity import entity, let
 from krrood.entity_query_language.quantify_entity import an
 from krrood.entity_query_language.symbol_graph import SymbolGraph
 from harness.models import sgmodel
+from harness.replay.footprint import registry_footprint, krrood_census
 from test.dataset.university_ontology_like_classes import Company, Person
 
 CLS = dict(sgmodel.HIER)
@@ -41,15 +42,6 @@ def sink(ev, fields):
         # which model object is being registered (0 = not an object of this history)
         d["o"] = CURRENT[0].idmap().get(fields.get("addr"), 0)
     EVENTS.append(d)
-
-
-def krrood_census():
-    c = Counter()
-    for o in gc.get_objects():
-        m = getattr(type(o), "__module__", "") or ""
-        if m.startswith("krrood."):
-            c[type(o).__name__] += 1
-    return c
 
 
 class Run:
@@ -236,7 +228,7 @@ def handle(case):
                 run.drop_all(case.get("end", "sweep"))
                 left = run.census()
                 g = SymbolGraph()
-                growth.append({"krrood": dict(krrood_census()), "nodes": len(g.wrapped_instances),
+                growth.append({"krrood": dict(krrood_census()), "nodes": len(g.wrapped_instances), "footprint": registry_footprint(),
                                "relations": len(list(g.relations())),
                                "alive_after_discard": left})
             res["growth"] = growth
